@@ -50,9 +50,9 @@ SPECIAL_INTS = [0, 1, 2, 3, 4, 5, 6, 7, 8, 9, 10, 12, 16, 20, 23, 24, 25, 27, 30
 SPECIAL_FRACS = [(1, 2), (3, 2), (5, 2), (-1, 2), (-3, 2), (21, 2), (51, 2), (201, 2), (1, 4), (3, 4), (-1, 4), (1, 8), (5, 4), (1, 16),
                  (7, 8), (1, 1024), (-5, 2), (9, 4), (27, 8), (101, 2)]
 CALL_CAP = {'quick': 1.0, 'thorough': 2.5}
-DRAWS = {'quick': 2, 'thorough': 8}
-SPECIAL_BUDGET = {'quick': 45, 'thorough': 200}       # special values of the primary argument per (function, precision)
-OPCASES = {'quick': 2000, 'thorough': 20000}
+DRAWS = {'quick': 2, 'thorough': 6}
+SPECIAL_BUDGET = {'quick': 45, 'thorough': 120}       # special values of the primary argument per (function, precision)
+OPCASES = {'quick': 2000, 'thorough': 12000}
 
 # ---- what the statement covers -----------------------------------------------------------
 # asserted categories: "elementary and special functions" (+ the non-exact f* arithmetic functions, which the statement's
